@@ -166,6 +166,23 @@ Fixpoint run_nodes (st : state) (ks : list node) : option (state * list obs) :=
 Definition init_state : state :=
   mkState (fun n => if String.eqb n "footnote" then [0] else []) [["footnote"%string]].
 
+(* ------------------------------------------------------------------- content lists parsed again later
+   compute_content_list stores, at the FIRST parse of a box's content, a copy of the counter values on the box
+   (parent_box.cached_counter_values = {key: value.copy() ...}).  The closure parse_again, called after the tree
+   is built (pending targets) or during pagination (page-based counters) with the page counters to mix in, does
+       local_counters = mixin_pagebased_counters.copy()        # or {}
+       local_counters.update(parent_box.cached_counter_values)
+   and parses the content with local_counters: it never reads the builder's live counter state. *)
+Record content_box := mkBox { cached : obs }.
+Definition first_parse (st : state) : content_box := mkBox (values st).
+Definition local_counters (b : content_box) (mixin : obs) : obs :=
+  fun n => match cached b n with [] => mixin n | l => l end.
+(* counter_values.get(name, [0]) *)
+Definition lookup_counter (vals : obs) (n : name) : list Z := match vals n with [] => [0] | l => l end.
+(* what counter(n) / counters(n) print when the content of b is parsed again while the builder is in state [live] *)
+Definition parse_again (b : content_box) (live : state) (mixin : obs) (n : name) : list Z :=
+  lookup_counter (local_counters b mixin) n.
+
 (* ------------------------------------------------------------------------------- reference (spec) *)
 Definition level := list (name * Z).
 
@@ -256,7 +273,10 @@ Definition init_levels : list level := [[("footnote"%string, 0)]].
 (* what one observation point printed: nothing generated there (no marker box), the stacks of all observed
    names (content: counters(..)), or only the innermost value of the LAST observed name (a default list marker
    "N. " when the last name is list-item) *)
-Inductive point := PNone | PFull (l : list (list Z)) | PTop (z : Z).
+Inductive point :=
+| PNone | PFull (l : list (list Z)) | PTop (z : Z)
+| PRef (l : list (list Z)) (j : nat) (t : list (list Z)).   (* own stacks l, and target-counters() of the element whose
+                                                             anchor is observation point j printed t *)
 Definition printed := list point.
 
 Definition show (names : list name) (o : obs) : list (list Z) :=
@@ -270,18 +290,20 @@ Fixpoint zss_eqb (a b : list (list Z)) : bool :=
   | x :: a', y :: b' => zs_eqb x y && zss_eqb a' b'
   | _, _ => false
   end.
-Definition point_ok (x : list (list Z)) (y : point) : bool :=
+Definition point_ok (all : list (list (list Z))) (x : list (list Z)) (y : point) : bool :=
   match y with
   | PNone => true
   | PFull l => zss_eqb x l
   | PTop z => Z.eqb (last (last x []) 0) z
+  | PRef l j t => zss_eqb x l && zss_eqb (nth j all []) t
   end.
-Fixpoint printed_eqb (a : list (list (list Z))) (b : printed) : bool :=
+Fixpoint printed_from (all a : list (list (list Z))) (b : printed) : bool :=
   match a, b with
   | [], [] => true
-  | x :: a', y :: b' => point_ok x y && printed_eqb a' b'
+  | x :: a', y :: b' => point_ok all x y && printed_from all a' b'
   | _, _ => false
   end.
+Definition printed_eqb (a : list (list (list Z))) (b : printed) : bool := printed_from a a b.
 
 (* the open finding "an explicit counter-increment on a list item suppresses the implicit list-item increment",
    as a transformation of the document: such list items are treated as if they were not list items *)
